@@ -76,9 +76,17 @@ pub open spec fn assign_prefix(toks: Seq<Token>, k: int) -> bool {
 }
 //@FN in_assignment_prefix
 
-pub uninterp spec fn spec_should_dollar(t: Seq<char>) -> bool;
+''' + common.NESTING_SPEC + common.NESTING_TWIN + r'''
+//@TYPE MAX_NESTING
+// the gate of the $(..) pass (verified below): two pattern literals (uninterpreted: a substitution is written; not inside the single-quoted value of an assignment) AND the word is within the nesting limit
+pub uninterp spec fn spec_dollar_ptn1() -> Seq<char>;
+pub uninterp spec fn spec_dollar_ptn2() -> Seq<char>;
+pub open spec fn spec_should_dollar(t: Seq<char>) -> bool { spec_re(spec_dollar_ptn1(), t) && !spec_re(spec_dollar_ptn2(), t) && nest(t, '(', ')') <= MAX_NESTING as int }
 #[verifier::external_body]
-pub fn should_do_dollar_command_extension(line: &str) -> (r: bool) ensures r == spec_should_dollar(line@) { unimplemented!() }
+pub fn vx_dollar_ptn1() -> (r: &'static str) ensures r@ == spec_dollar_ptn1() { unimplemented!() }
+#[verifier::external_body]
+pub fn vx_dollar_ptn2() -> (r: &'static str) ensures r@ == spec_dollar_ptn2() { unimplemented!() }
+//@FN should_do_dollar_command_extension
 #[verifier::external_body]
 pub fn find_first_group(ptn: &str, text: &str) -> (r: Option<String>) { unimplemented!() }
 pub struct VxRegex { pub id: i32 }
@@ -366,12 +374,18 @@ both = Fn(S, 'do_command_substitution', add_params='Tracked(lg): Tracked<&mut Su
     ghost_args={'do_command_substitution_for_dot': 'Tracked(lg)', 'do_command_substitution_for_dollar': 'Tracked(lg)'},
     ensures=[('C11.subst.backquote_pass_first_then_the_dollar_pass', 'final(lg).order == old(lg).order.push(0).push(1)')])
 
-UNIT = Unit('U-EXP3', TEMPLATE, fns=[common.has_operator_fn(), common.in_assignment_prefix_fn(), split_first, dollar, dot, both, Fn('src/types.rs', 'new', impl='CommandResult')],
-            types=[TypeItem('src/types.rs', 'struct', 'Command'), TypeItem('src/types.rs', 'struct', 'CommandLine'), TypeItem('src/types.rs', 'struct', 'CommandResult')],
+should_dollar = Fn('src/shell.rs', 'should_do_dollar_command_extension', ret='r', props=('C11', 'C05'),
+    pre_rewrites=[Rw(r'libs::re::re_contains(line, r"\$\([^\)]+\)")', 're_contains(line, vx_dollar_ptn1())', rule='R6', why='the pattern literal through an opaque constant (axiom ref_gates validates the literal itself)'),
+                  Rw(r"""libs::re::re_contains(line, r"='.*\$\([^\)]+\).*'$")""", 're_contains(line, vx_dollar_ptn2())', rule='R6', why='the pattern literal through an opaque constant'),
+                  Rw('tools::nesting_depth(', 'nesting_depth(', rule='R0'), Rw('tools::MAX_NESTING', 'MAX_NESTING', rule='R0')],
+    ensures=[('C11.gate.dollar.a_substitution_is_written_and_the_word_is_within_the_nesting_limit', 'r == spec_should_dollar(line@)'),
+             ('C05.gate.dollar.the_pass_that_runs_a_shell_per_level_is_given_only_words_within_the_nesting_limit', "r ==> nest(line@, '(', ')') <= MAX_NESTING as int")])
+UNIT = Unit('U-EXP3', TEMPLATE, fns=[common.has_operator_fn(), common.in_assignment_prefix_fn(), should_dollar, split_first, dollar, dot, both, Fn('src/types.rs', 'new', impl='CommandResult')],
+            types=[TypeItem('src/types.rs', 'struct', 'Command'), TypeItem('src/types.rs', 'struct', 'CommandLine'), TypeItem('src/types.rs', 'struct', 'CommandResult'), TypeItem('src/tools.rs', 'const', 'MAX_NESTING')],
             props=('C11', 'C13', 'C01', 'C05'))
 TRUSTED = common.TRUSTED_STR + common.TRUSTED_TOKEN + [
     'the substitution passes no longer use regexes to locate a substitution: split_first_substitution (both spellings) is verified (first `$(` with its matching `)`, or a pair of '
-    'backquotes; pieces concatenate to the text; tail shorter); only the gate should_do_dollar_command_extension stays an uninterpreted regex (it can only make the pass skip a word)',
+    'backquotes; pieces concatenate to the text; tail shorter); the gate should_do_dollar_command_extension is under contract (its two pattern literals stay uninterpreted; the word must be within the nesting limit)',
     'that the text appended is the command\'s stdout (trimmed) is kernel / std behaviour',
     'CommandLine::from_line and core::run_pipeline are external here (contracts in U-PLAN / U-FD)',
 ]
